@@ -136,6 +136,15 @@ package verifspec
 //@   returns nat
 //@   ensures (x.$high == 0 ==> result == x.$low) && (x.$high != 0 ==> result >= 4294967296)
 
+// The same for a count of type int64: a negative count stays negative (the exact sum is at most -1, which is a double).
+//@ js numeric.js $flatten64 icount
+//@ property C06
+//@   mode bv
+//@   trusted monotonicity of IEEE-754 rounding: high*2^32 + low >= 2^32 whenever high >= 1, and <= -1 whenever high <= -1
+//@   param x: i64
+//@   returns int
+//@   ensures (x.$high == 0 ==> result == x.$low) && (x.$high > 0 ==> result >= 4294967296) && (x.$high < 0 ==> result < 0)
+
 // ---- $div64: restoring shift-subtract division on magnitudes, signs applied at the end.
 // pw(n) = 2^n (defined by pw(0) = 1, pw(n+1) = 2 pw(n)).
 //@ pure pw(n int) int
@@ -269,3 +278,12 @@ package verifspec
 //@   prune
 //@   param x: u64, y: bigcount
 //@   ensures result.$high == 0 && result.$low == 0
+
+// The count of a shift whose count operand has a signed type: the Go specification makes a negative count a run-time panic.
+//@ js numeric.js $shiftCount
+//@ property C08
+//@   mode bv
+//@   param y: int
+//@   throws_if y < 0
+//@   throws_msg negative shift amount
+//@   ensures result == y
